@@ -610,6 +610,20 @@ Proof.
   eapply rel0_trans; [|apply rel0_finish_create]. apply rel0_eq; reflexivity.
 Qed.
 
+Lemma rel0_do_sendoffer sid h c x s i stream : rel0 sid h (fst (do_sendoffer h c x s i stream)).
+Proof.
+  unfold do_sendoffer.
+  destruct i as [n|n|k|n]; try (destruct (negb (send_allowed (s_perms s) stream)); [apply rel0_refl|apply rel0_refl]).
+  destruct (get_sess h n) as [t|] eqn:Ht; [|destruct (negb (send_allowed (s_perms s) stream)); [apply rel0_refl|apply rel0_refl]].
+  destruct (N.eqb_spec (s_backend t) (s_backend s)) as [Hbt|]; cbn [negb]; [|apply rel0_refl].
+  destruct (N.eqb n x); [apply rel0_refl|].
+  destruct (negb (send_allowed (s_perms s) stream)); [apply rel0_refl|].
+  cbv zeta. set (r := match s_kind t with KVirtual p _ => p | _ => n end).
+  destruct (get_sess h r) as [rs|] eqn:Hr; [|apply rel0_refl].
+  destruct (is_virtual (s_kind rs)) eqn:Hv; [apply rel0_refl|].
+  destruct (sub_get rs x stream); [apply rel0_send_session|apply rel0_start_create].
+Qed.
+
 Lemma rel0_do_media sid h c x s to mk stream media :
   get_sess h x = Some s -> rel0 sid h (fst (do_media h c x s to mk stream media)).
 Proof.
@@ -622,7 +636,7 @@ Proof.
     + match goal with |- context [if ?c then _ else _] => destruct c end; [apply rel0_refl|].
       destruct (negb (same_call h x s _)); [apply rel0_refl|].
       destruct (sub_get s _ stream); [apply rel0_send_session|apply rel0_start_create].
-    + destruct (N.eqb mk 2); [|apply rel0_refl].
+    + destruct (is_cand mk); [|destruct (N.eqb mk 3); [apply rel0_do_sendoffer|apply rel0_refl]].
       match goal with |- context [if ?c then _ else _] => destruct c end.
       * destruct (negb (send_allowed (s_perms s) stream)); [apply rel0_refl|]. destruct (aget (s_pubs s) stream); apply rel0_refl.
       * destruct (sub_get s _ stream); apply rel0_refl.
